@@ -283,8 +283,10 @@ def rule_ranges_all(ctx, M):
             pr = P.Prov(callee)
             r = pr.local(0)
             ok = False
-            if r[0] == "agg" and r[1].startswith("adt:") and len(r[2]) == 3 and callee.arg_count == 0:
-                start, end, incl = r[2]
+            if r[0] == "agg" and r[1].startswith("adt:") and len(r[2]) in (2, 3) and callee.arg_count == 0:
+                # (start, end, inclusive=false) or the half-open representation (start, end)
+                start, end = r[2][0], r[2][1]
+                incl = r[2][2] if len(r[2]) == 3 else ("bool", False)
                 e = P.strip(end)
                 is_len = (e[0] == "call" and e[1].rsplit("::", 1)[-1] == "len") or e[0] == "len" or \
                     (e[0] == "un" and e[1] == "PtrMetadata") or P.const_int(e) is not None
